@@ -167,6 +167,11 @@ def _throws(f):
 
 
 
+def _benign_guard(c):
+    """enclosing conditions that do not narrow a documented rejection: Yukawa-type / basis dispatch"""
+    return bool(re.search(r"yukawa_type|Yukawa_type|input_type|have_problem\(\)", c))
+
+
 def _split_guard(cond, pol):
     """(A && B) held true -> A true, B true;  (A || B) held false -> A false, B false"""
     c = strip_all(cond)
@@ -283,6 +288,7 @@ def run(F, R, tier, M=None):
                                     for p in f["params"])
             allsites.append((f, t, _unq(t["tt"]), conds, ptypes))
     doc_sites = {}
+    narrowed = {}
     for label, frx, crx, cls in DOCUMENTED:
         fr, _, pfilter = frx.partition("#")
         final = pfilter == "final"
@@ -299,10 +305,23 @@ def run(F, R, tier, M=None):
             if crx == ".*" or any(re.search(crx, c) for c in pos) or \
                     (label == "THDM undecidable basis" and any(re.search(crx, c) for c in neg)):
                 hits.append((f, t, ty))
+                # further conditions under which alone the rejection happens (they narrow the documented condition)
+                extra = [c for c in pos if crx != ".*" and not re.search(crx, c)] + \
+                        [("NOT " + c) for c in neg if not (label == "THDM undecidable basis" and re.search(crx, c))]
+                if label == "THDM undecidable basis":
+                    extra = []            # the documented condition *is* the conjunction of the two negated basis tests
+                narrowed.setdefault(label, []).append((f, t, extra))
         if not hits:
             R.fail("V2", label, "", "no throw site is guarded by this documented condition any more",
                    key="V2|%s|missing" % label)
             continue
+        if label in narrowed and all(x[2] for x in narrowed[label]) and crx != ".*":
+            f_, t_, extra = narrowed[label][0]
+            if not all(_benign_guard(c) for c in extra):
+                R.fail("V2", label, F.loc(f_, t_), "the documented condition is rejected only under the further condition(s) %s: "
+                       "inputs that satisfy the documented condition but not these are accepted" % extra[:3],
+                       key="V2|%s|narrowed" % label)
+                continue
         f, t, ty = hits[0]
         R.check("V2", ty == "gm2calc::" + cls, "%s -> %s" % (label, ty.split("::")[-1]), F.loc(f, t),
                 "documented class is %s" % cls, key="V2|%s|class" % label)
